@@ -1266,3 +1266,9 @@ pub use reduced_range_rng::ReducedRangeRng;
 
 #[cfg(test)]
 mod tests;
+
+/// Hooks for the external verification harness in `/verif`. Only compiled with
+/// `RUSTFLAGS="--cfg rten_verif"`; ordinary builds are unaffected.
+#[cfg(rten_verif)]
+#[doc(hidden)]
+pub mod verif;
